@@ -105,6 +105,12 @@ func Split(fset *token.FileSet, filename string, content []byte) (Program, error
 	splitter := programSplitter{file: file, content: content}
 	splitter.next() // read the first line
 
+	// Blank lines before the first change carry no meaning, just like blank
+	// lines anywhere else in the file.
+	for !splitter.eof && len(bytes.TrimSpace(splitter.text)) == 0 {
+		splitter.next()
+	}
+
 	return splitter.readProgram(), multierr.Combine(splitter.errors...)
 }
 
